@@ -76,7 +76,7 @@ def _ops(old: str, new: str):
     )
     req = st.builds(lambda n, c, t: ["rx", f"{n};{c};2;0;{t};\n"], node, child, st.sampled_from((0, 2)))
     wake = st.builds(lambda n, t: ["rx", f"{n};255;3;0;{t};5\n"], node, st.sampled_from([t for t in (22, 32) if t in internal_types] or [18 if 18 in internal_types else 9]))
-    return st.lists(gen.weighted((6, lines.map(lambda l: ["rx", l])), (3, send), (1, req), (1, wake)), min_size=8, max_size=25)
+    return st.lists(gen.weighted((6, gen.with_ack(lines).map(lambda l: ["rx", l])), (3, send), (1, gen.with_ack(req.map(lambda o: o[1])).map(lambda l: ["rx", l])), (1, wake)), min_size=8, max_size=25)
 
 
 @st.composite
